@@ -172,7 +172,7 @@ def check_random(case):
 core.register("C10", [
     Facet("exhaustive", None, check_enum, enum=enum_cases, shards_quick=8,
           rule=RULE),
-    Facet("random", random_cases, check_random, n_quick=500, shards_quick=2,
+    Facet("random", random_cases, check_random, n_quick=1500, shards_quick=2,
           rule="random permutations of length 5-8, swaps up to 6x6, "
           "non-permutations and length mismatches (must be refused)"),
 ], rule=RULE, assumptions=[
